@@ -42,7 +42,16 @@ type shPending struct {
 	types  []int8
 }
 
+type shCb struct {
+	seq uint64
+	err bool
+}
+
+type shFlush struct{ inv, ret uint64 }
+
 type shPolled struct {
+	act      int64  // 1 accept / 3 reject set by the application itself (no renew before it)
+	ackSeq   uint64 // event at which that call returned
 	member   string
 	tp       string
 	off      int64
@@ -77,6 +86,12 @@ type shareState struct {
 	// member, and how many final outcomes of the member for it it applied
 	acqCount   map[string]int
 	finalCount map[string]int
+	// what the application was told: every callback result per member|tp,
+	// the successful FlushAcks per member, and the polls per tp|offset
+	drainFetches map[int32]int // successful ShareFetch answers to the drain member, per broker
+	cbLog        map[string][]shCb
+	flushes      map[string][]shFlush
+	byOff        map[string][]*shPolled
 }
 
 func (st *shareState) anyFault() bool {
@@ -198,6 +213,9 @@ func (st *shareState) onProcessed(r *WireResp) {
 		if q.ErrorCode != 0 {
 			return
 		}
+		if r.Conn.Client == "drain" {
+			st.drainFetches[r.Conn.Broker]++
+		}
 		for _, t := range q.Topics {
 			topic := s.reqTopic("", t.TopicID)
 			for _, p := range t.Partitions {
@@ -230,6 +248,9 @@ func (st *shareState) onProcessed(r *WireResp) {
 						if old := m[o]; old != nil && old.archived && faultFree {
 							s.Violf("C12/redelivered-after-final", "%s offset %d was acquired by %s (delivery %d) although the broker had answered %s's %s of it without error", tp, o, r.Conn.Client, a.DeliveryCount, old.member, ackName(old.final))
 						}
+						if why := st.confirmedFinal(tp, o, r.Seq); why != "" {
+							s.Violf("C12/redelivered-after-confirmed", "%s offset %d was acquired by %s (delivery %d) although %s", tp, o, r.Conn.Client, a.DeliveryCount, why)
+						}
 						m[o] = &shAcq{member: r.Conn.Client, delivery: a.DeliveryCount, open: true}
 						st.acqCount[fmt.Sprintf("%s|%s|%d", r.Conn.Client, tp, o)]++
 						s.Count("wire.acquired", 1)
@@ -253,6 +274,37 @@ func (st *shareState) onProcessed(r *WireResp) {
 		}
 		st.apply(pend, ackOK, r.Conn.Client)
 	}
+}
+
+// confirmedFinal: was an accept or reject of (tp, offset) confirmed to the
+// application before event now? Confirmed means: the application set the
+// status itself, a FlushAcks invoked after that returned nil before now
+// ("returns only after the callbacks for all earlier acknowledgements have
+// run"), and every acknowledgement callback result for that partition between
+// the two was without error - whichever of them was this record's, it said
+// the outcome is final. Such a record is never delivered again. (st.mu held.)
+func (st *shareState) confirmedFinal(tp string, off int64, now uint64) string {
+	for _, pr := range st.byOff[fmt.Sprintf("%s|%d", tp, off)] {
+		if pr.act == 0 {
+			continue
+		}
+		for _, f := range st.flushes[pr.member] {
+			if f.inv <= pr.ackSeq || f.ret >= now {
+				continue
+			}
+			n, bad := 0, false
+			for _, cb := range st.cbLog[pr.member+"|"+tp] {
+				if cb.seq > pr.ackSeq && cb.seq < f.ret {
+					n++
+					bad = bad || cb.err
+				}
+			}
+			if n > 0 && !bad {
+				return fmt.Sprintf("%s had set %s on it (delivery %d) at event %d, FlushAcks invoked at %d returned nil at %d, and all %d acknowledgement callback results for the partition in between were without error", pr.member, ackName(int8(pr.act)), pr.delivery, pr.ackSeq, f.inv, f.ret, n)
+			}
+		}
+	}
+	return ""
 }
 
 func ackName(t int8) string {
@@ -353,6 +405,7 @@ func (st *shareState) newMember(name string) *shMember {
 			for _, r := range rs {
 				k := name + "|" + tpKeyStr(r.Topic, r.Partition)
 				st.cbSeen[k] = seq
+				st.cbLog[k] = append(st.cbLog[k], shCb{seq, r.Err != nil})
 				if r.Err != nil {
 					st.cbErr[k]++
 					s.Count("ack_callback_errors", 1)
@@ -399,6 +452,7 @@ func (st *shareState) run(m *shMember, a plan.Actor) {
 			if err == nil {
 				s.Count("flush_acks_ok", 1)
 				st.mu.Lock()
+				st.flushes[m.name] = append(st.flushes[m.name], shFlush{inv, s.Seq()})
 				for k, at := range issued {
 					if at < inv && st.cbSeen[k] < at {
 						s.Violf("C12/flush/returned-before-callback", "FlushAcks of %s returned nil, but no acknowledgement callback for %s has run since the acknowledgement issued at event %d (flush invoked at %d)", m.name, strings.SplitN(k, "|", 2)[1], at, inv)
@@ -429,6 +483,8 @@ func (st *shareState) run(m *shMember, a plan.Actor) {
 			st.mu.Lock()
 			st.polled = append(st.polled, pr)
 			st.byKey[fmt.Sprintf("%s|%s|%d", pr.member, pr.tp, pr.off)] = pr
+			ok := fmt.Sprintf("%s|%d", pr.tp, pr.off)
+			st.byOff[ok] = append(st.byOff[ok], pr)
 			st.mu.Unlock()
 			x := mix64(s.P.Seed ^ uint64(r.Offset)*0x9e3779b97f4a7c15 ^ uint64(m.polls)*31 ^ uint64(j))
 			act := int64(1) // accept
@@ -452,6 +508,11 @@ func (st *shareState) run(m *shMember, a plan.Actor) {
 				pr.appFinal = true
 				issue()
 				r.Ack(kgo.AckStatus(act))
+				if act != 2 {
+					st.mu.Lock()
+					pr.act, pr.ackSeq = act, s.Seq()
+					st.mu.Unlock()
+				}
 			case 4:
 				pr.appRenew = true
 				issue()
@@ -496,6 +557,7 @@ func scenShare(s *Sim) {
 	}
 	s.StartCluster(nb, kfake.SeedTopics(nparts, "t0"), kfake.BrokerConfigs(cfgs))
 	st := &shareState{s: s, acq: map[string]map[int64]*shAcq{}, pend: map[string][]shPending{}, appliedBy: map[string]map[int64][]int8{},
+		drainFetches: map[int32]int{}, cbLog: map[string][]shCb{}, flushes: map[string][]shFlush{}, byOff: map[string][]*shPolled{},
 		ackIssued: map[string]uint64{}, cbSeen: map[string]uint64{}, cbErr: map[string]int{}, members: map[string]string{}, disturbed: map[string]bool{}, accepted: map[string]map[int64]bool{}, maybeFinal: map[string]map[int64]bool{}, byKey: map[string]*shPolled{}, acqCount: map[string]int{}, finalCount: map[string]int{}}
 	s.OnReq = append(s.OnReq, st.onReq)
 	s.OnProcessed = append(s.OnProcessed, st.onProcessed)
@@ -666,7 +728,22 @@ func scenShare(s *Sim) {
 	close(drain.done) // no poll loop of its own
 	got := map[string]int{}
 	quiet := 0
-	for quiet < 4 {
+	// the drain member is done after four empty polls in a row - counted
+	// only once every broker has answered it a few fetches (on a slow network
+	// joining the group alone can take longer than those polls), and for at
+	// most ten minutes
+	drainStart := s.Now()
+	settled := func() bool {
+		st.mu.Lock()
+		defer st.mu.Unlock()
+		for q := int32(0); q < nparts; q++ {
+			if b := s.Cluster.LeaderFor("t0", q); b >= 0 && st.drainFetches[b] < 3 {
+				return false
+			}
+		}
+		return true
+	}
+	for quiet < 4 || (!settled() && s.Now()-drainStart < 10*time.Minute) {
 		ctx, cancel := context.WithTimeout(context.Background(), 3*time.Second)
 		fs := drain.cl.PollRecords(ctx, 100)
 		cancel()
@@ -713,7 +790,23 @@ func scenShare(s *Sim) {
 			// session that was reset) is at-least-once, not a violation
 			s.Probe("drain_redelivery")
 		case got[v] == 0 && !finalBy[v]:
-			s.Violf("C12/lost", "record %s (%s) was neither accepted/rejected by any member nor delivered to the drain member after all members closed and the acquisition locks ran out", v, produced[v])
+			// what the wire saw of it last
+			last := "never acquired by anybody"
+			for k, val := range valAt {
+				if val != v {
+					continue
+				}
+				var tp string
+				var off int64
+				if i := strings.LastIndexByte(k, '@'); i > 0 {
+					tp = k[:i]
+					fmt.Sscanf(k[i+1:], "%d", &off)
+				}
+				if a := st.acq[tp][off]; a != nil {
+					last = fmt.Sprintf("offset %d, last acquisition by %s (delivery %d), still open=%v, final outcomes applied to it=%d (last %s), renewed=%v", off, a.member, a.delivery, a.open, a.finals, ackName(a.final), a.renewed)
+				}
+			}
+			s.Violf("C12/lost", "record %s (%s) was neither accepted/rejected by any member nor delivered to the drain member after all members closed and the acquisition locks ran out; %s", v, produced[v], last)
 		}
 	}
 	s.Count("records_produced", int64(len(vals)))
